@@ -44,15 +44,30 @@ const double PI = 3.14159265358979323846;
 
 // Suspected STIR defects found by this harness are excluded narrowly (see work/notes/C12_findings.md);
 // VERIF_NO_EXCLUDE=1 switches every exclusion off so that the recorded cases fail again.
+// A case may carry "lift_only": "Fn": with VERIF_NO_EXCLUDE=1 only that exclusion is then lifted (the known-finding probes in
+// known/C12/ use it so that each probe fails for its own finding and is not masked by another one); without the field
+// VERIF_NO_EXCLUDE=1 lifts all of them.  Without VERIF_NO_EXCLUDE the field has no effect.  "F4a" = F4 with the two-point
+// LOR representation only.
+std::string g_lift_only; // set by check() from the case
+
 bool
 exclusions_on(const char* finding)
 {
   static const bool all_off = std::getenv("VERIF_NO_EXCLUDE") != nullptr;
+  const std::string f(finding);
   if (all_off)
-    return false;
+    return g_lift_only.empty() ? false : !(g_lift_only == f || (g_lift_only == "F4a" && f == "F4"));
   // development aid: C12_NO_EXCLUDE=F3 switches a single exclusion off (to shrink a case for one finding)
   static const char* one = std::getenv("C12_NO_EXCLUDE");
-  return !(one && std::string(one) == finding);
+  return !(one && (f == one || (std::string(one) == "F4a" && f == "F4")));
+}
+
+// sub-case exclusions are counted per excluded bin/check, both as a named counter and under excluded_known
+void
+count_excluded(const std::string& what, long n = 1)
+{
+  stats().count("excluded:" + what, n);
+  stats().excluded_known += n;
 }
 
 // index list lo..hi with a stride; the last index is always included (range ends matter for every clause)
@@ -265,7 +280,7 @@ check_tof(const ProjDataInfo& p)
               const int kb = p.get_tof_bin(probe);
               const bool ok = kb == k || kb == k + 1;
               if (!ok && exclusions_on("F6"))
-                stats().count("excluded:C12-F6 time difference between two TOF bins assigned to neither");
+                count_excluded("C12-F6 time difference between two TOF bins assigned to neither");
               else
                 VF_CHECK(ok, "TOF boundaries not contiguous: the time difference ", probe, " ps between bin ", k, " (high ", hips, ") and bin ", k + 1, " (low ",
                          lo1ps, ") is assigned to TOF bin ", kb);
@@ -474,7 +489,7 @@ check_noarc(const ProjDataInfoCylindricalNoArcCorr& p, const json& c)
                 // (assert in debug builds, uninitialised entry otherwise).  Excluded by construction.
                 if (ties && std::abs(t) == g.N / 2 - 1 && exclusions_on("F2"))
                   {
-                    stats().count("excluded:C12-F2 tie between adjacent detectors", long(ks.size()));
+                    count_excluded("C12-F2 tie between adjacent detectors", long(ks.size()));
                     continue;
                   }
                 for (int k : ks)
@@ -605,7 +620,7 @@ check_arc(const ProjDataInfoCylindricalArcCorr& p, const json& c)
                 // (assert(bin.view_num() < get_num_views()) in ProjDataInfoCylindricalArcCorr.cxx:125, an out-of-range view in
                 // release builds).  Excluded by construction: view 0 of arc-corrected data with a positive offset.
                 if (v == 0 && p.get_azimuthal_angle_offset() > 0 && exclusions_on("F5"))
-                  stats().count("excluded:C12-F5 arc-corrected get_bin, view 0 with positive azimuthal offset");
+                  count_excluded("C12-F5 arc-corrected get_bin, view 0 with positive azimuthal offset");
                 else
                 {
                   const double dt = p.get_tof_delta_time(b);
@@ -684,7 +699,7 @@ check_blocks(const ProjDataInfoGenericNoArcCorr& p, const json& c)
               const double rl = std::max(std::hypot(double(c1.x()), double(c1.y())), std::hypot(double(c2.x()), double(c2.y())));
               const bool affected = l.tantheta != 0 && (l.s / rl) * (l.s / rl) >= 2e-5;
               if (affected && exclusions_on("F3"))
-                stats().count("excluded:C12-F3 generic get_tantheta off-centre");
+                count_excluded("C12-F3 generic get_tantheta off-centre");
               else
                 {
                   VF_CHECK(std::fabs(tth - sgn * l.tantheta) <= tol.tantheta_rel * std::fabs(l.tantheta) + tol.tantheta_abs, "get_tantheta=", tth,
@@ -717,18 +732,18 @@ check_blocks(const ProjDataInfoGenericNoArcCorr& p, const json& c)
               // outer of the two crystals (ProjDataInfoGeneric::get_LOR).  The round trip therefore reports a miss for most bins
               // and occasionally a bin two tangential positions away.  Excluded by construction for blocks/generic data;
               // the outcome classes are still counted.
-              if (exclusions_on("F4") && exclusions_on("F4a"))  // F4a: see below
+              if (exclusions_on("F4"))
                 {
                   const Bin nb2 = p.get_bin(lor2, 0.);
                   const Result rr = accept_roundtrip(p, b, nb2, false, "two points, blocks");
-                  stats().count(rr.failed() ? (nb2.get_bin_value() > 0 ? "excluded:C12-F4 blocks round trip: wrong bin" : "excluded:C12-F4 blocks round trip: miss")
-                                            : "excluded:C12-F4 blocks round trip: would pass");
+                  count_excluded(rr.failed() ? (nb2.get_bin_value() > 0 ? "C12-F4 blocks round trip: wrong bin" : "C12-F4 blocks round trip: miss")
+                                           : "C12-F4 blocks round trip: would pass");
                 }
               else
                 {
                   const Bin nb2 = p.get_bin(lor2, 0.);
                   VF_TRY(accept_roundtrip(p, b, nb2, false, "two points"));
-                  static const bool two_points_only = std::getenv("C12_NO_EXCLUDE") && std::string(std::getenv("C12_NO_EXCLUDE")) == "F4a";
+                  const bool two_points_only = g_lift_only == "F4a" || (std::getenv("C12_NO_EXCLUDE") && std::string(std::getenv("C12_NO_EXCLUDE")) == "F4a");
                   if (!two_points_only) // (development aid: C12_NO_EXCLUDE=F4a checks the two-point representation only)
                     {
                       const Bin nb = p.get_bin(lor, 0.);
@@ -793,7 +808,7 @@ check_arc_correction(const shared_ptr<ProjDataInfo>& noarc_sptr, const json& a)
   const bool excl_last = exclusions_on("F1");
   const int omax_checked = excl_last ? omax - 1 : omax;
   if (excl_last && out_edge(omax) < in_hi)
-    stats().count("excluded:C12-F1 last arc-corrected bin reached by the input");
+    count_excluded("C12-F1 last arc-corrected bin reached by the input");
   const double out_lo = out_edge(omin), out_hi = out_edge(omax_checked + 1);
   if (variant == 0 && imax + 2 <= g.N / 2 && imin - 2 >= -g.N / 2)
     { // documented (ArcCorrection.h): "num_arccorrected_bins is chosen such that the new (radial) FOV is slightly larger than the
@@ -915,6 +930,7 @@ check_arc_correction(const shared_ptr<ProjDataInfo>& noarc_sptr, const json& a)
 Result
 check(const json& c)
 {
+  g_lift_only = c.value("lift_only", std::string());
   shared_ptr<Scanner> sc;
   shared_ptr<ProjDataInfo> pdi;
   try
